@@ -19,6 +19,47 @@ import (
 // demanded until the next establishing operation (the model re-reads the object's content
 // then).
 func blockSequences() {
+	// beyond the limits a block has no valid encoding: it must be refused, never emitted with a
+	// wrapped count
+	for _, n := range []int{65535, 65536, 65537, 70000, 131072} {
+		d := data.NewData()
+		d.Add(make([]byte, n/2))
+		d.Add(make([]byte, n-n/2))
+		var out []byte
+		var err error
+		p, pv, st := mon.Guard(func() { out, err = d.Marshal() })
+		r.Eval(1)
+		cs := map[string]any{"block": "Data", "bytes": n}
+		switch {
+		case p:
+			r.Violation("data.Data:limit:panic", fmt.Sprintf("panic %v at %s", pv, mon.TopLibFrame(st)), cs)
+		case err != nil && n <= 65535:
+			r.Violation("data.Data:limit:refused", fmt.Sprintf("a %d-byte data block is refused: %v", n, err), cs)
+		case err == nil && (len(out) < 2 || int(binary.LittleEndian.Uint16(out)) != len(out)-2):
+			r.Violation("data.Data:limit:count", fmt.Sprintf("a %d-byte data block is emitted with byte count %d", n, binary.LittleEndian.Uint16(out)), cs)
+		}
+		r.Nontrivial(fmt.Sprintf("datalimit|%d", n))
+	}
+	for _, n := range []int{255, 256, 257, 300} {
+		pb := parameters.NewParameters()
+		for i := 0; i < n; i++ {
+			pb.AddWord(uint16(i))
+		}
+		var out []byte
+		var err error
+		p, pv, st := mon.Guard(func() { out, err = pb.Marshal() })
+		r.Eval(1)
+		cs := map[string]any{"block": "Parameters", "words": n}
+		switch {
+		case p:
+			r.Violation("parameters.Parameters:limit:panic", fmt.Sprintf("panic %v at %s", pv, mon.TopLibFrame(st)), cs)
+		case err != nil && n <= 255:
+			r.Violation("parameters.Parameters:limit:refused", fmt.Sprintf("a %d-word parameter block is refused: %v", n, err), cs)
+		case err == nil && (len(out) < 1 || 2*int(out[0]) != len(out)-1):
+			r.Violation("parameters.Parameters:limit:count", fmt.Sprintf("a %d-word parameter block is emitted with word count %d", n, out[0]), cs)
+		}
+		r.Nontrivial(fmt.Sprintf("paramlimit|%d", n))
+	}
 	nSeq := r.Pick(3000, 120000)
 	for q := 0; q < nSeq; q++ {
 		rng := r.Rand(fmt.Sprintf("blockseq|%d", q))
